@@ -49,6 +49,16 @@
 //    (b) cannot be avoided: after Encrypt() keys, addresses and file bytes differ from run to run; keep them out of traces.
 //  * Everything else the wallet draws (coin selection, change position, anti-fee-sniping, hash-map salts) comes from the
 //    deterministic RNG. Signatures are RFC6979 / BIP340 with zero aux randomness.
+//  * Heap addresses: CWallet::GetActiveScriptPubKeyMans()/GetAllScriptPubKeyMans() return std::set<ScriptPubKeyMan*>, and
+//    CWallet::TopUpKeyPool() (wallet creation, EVERY load, keypoolrefill) rewrites the descriptor records (INSERT OR REPLACE = new
+//    rowid) in the iteration order of that set, i.e. in the order of the objects' heap addresses. The physical layout of the SQLite
+//    file, and with it the number and order of the I/O operations of every later transaction (= simfs log indices = crash points),
+//    therefore depends on where malloc put eight objects, which depends on the allocation history of the process (plan generated in
+//    the child vs. parsed from a replay file, verbose logging, ...: 6 of 24 C62 seeds recorded different I/O logs in `run` and in
+//    `replay`). walletsim.cpp removes that: while at least one WalletNode exists, allocations of exactly
+//    sizeof(wallet::DescriptorScriptPubKeyMan) are served from a slot array (lowest free slot first) by weak replacements of the
+//    global operator new/delete; all other allocations go to malloc/free as before. The relative order of those objects is then a
+//    function of the sequence of such allocations only. EnableSpkmSlotAllocator(false) switches it off (A/B comparisons).
 #pragma once
 
 #include "simnode.h"
@@ -82,6 +92,11 @@ namespace nodesim {
  *  holds cs_main are queued; the queue is run in order by the first insert()/flush() that happens without cs_main. Single-threaded
  *  harness only (the owner test reads the glibc mutex owner field). */
 std::unique_ptr<util::TaskRunnerInterface> MakeDeferredTaskRunner();
+
+/** Slot allocator for DescriptorScriptPubKeyMan objects (see "Determinism" above): on by default while a WalletNode exists. */
+void EnableSpkmSlotAllocator(bool on);
+/** Number of allocations served from the slot array so far in this process (evidence / reach probe). */
+uint64_t SpkmSlotAllocations();
 
 struct WalletNodeOpts {
     std::string walletdir;                 //!< default: <SimNode datadir>/wallets
